@@ -1,58 +1,17 @@
 import MlModel.Lemmas.RetrievalMerge
+import MlModel.Lemmas.RetrievalHeap
 /-!
 # C11, metric family "retrieval": merge is associative, commutative, has the fresh state as unit
 
 Pure (value-level) laws of `TopKRetrieval.merge`, `ThresholdedRetrieval.merge`, `MeanState.merge`,
 `TupleMeanState.merge` on the models of the repaired code.  "Never damages its operand / results
-are repeatable / later updates do not leak" is the subject of `Properties/C11/RetrievalHeap.lean`
-(object-level model with explicit cells).
+are repeatable / later updates do not leak" is the subject of the second half of this file
+(object-level model with explicit array cells, `Model/Agg/RetrievalHeap.lean`).
 -/
 namespace MlModel.C11
 open MlModel.Agg MlModel.Agg.Retrieval
 
 variable {α : Type} [DecidableEq α]
-
-/-- a state of the shape accumulators of configuration `cfg` have: one `MeanState` per metric,
-every total a vector over the Ks -/
-def WF (cfg : Config) (s : State) : Prop :=
-  s.length = cfg.metrics.length ∧ ∀ c ∈ s, c.total.length = cfg.nk
-
-/-- states reachable through the API: fresh, after `add`, after `merge` -/
-inductive Reachable (cfg : Config) : State → Prop where
-  | fresh : Reachable cfg (emptyState cfg)
-  | add {s : State} (rows : List (Row α)) : Reachable cfg s → Reachable cfg (mergeState s (ofBatch cfg rows))
-  | merge {s t : State} : Reachable cfg s → Reachable cfg t → Reachable cfg (mergeState s t)
-
-theorem wf_empty (cfg : Config) : WF cfg (emptyState cfg) := by
-  simp [WF, emptyState]
-
-theorem wf_ofBatch (cfg : Config) (rows : List (Row α)) : WF cfg (ofBatch cfg rows) := by
-  constructor
-  · simp [ofBatch, batchVals]
-  · intro c hc
-    simp only [ofBatch, batchVals, List.map_map, List.mem_map, List.mem_range] at hc
-    obtain ⟨j, hj, rfl⟩ := hc
-    simp only [Function.comp, MeanCell.new]
-    apply foldl_vecAdd_length
-    · simp
-    · intro b hb
-      obtain ⟨r, _, rfl⟩ := List.mem_map.mp hb
-      show ((rowVals cfg (cfg.width rows) r).getD j []).length = cfg.nk
-      unfold rowVals
-      simp only []
-      rw [List.getD_eq_getElem?_getD, List.getElem?_map, List.getElem?_eq_getElem hj]
-      simp [rowKs_length]
-
-theorem wf_merge (cfg : Config) (a b : State) (ha : WF cfg a) (hb : WF cfg b) :
-    WF cfg (mergeState a b) := by
-  constructor
-  · simp [mergeState, ha.1, hb.1]
-  · intro c hc
-    simp only [mergeState] at hc
-    obtain ⟨i, hi, rfl⟩ := List.mem_iff_getElem.mp hc
-    simp only [List.getElem_zipWith, MeanCell.merge, vecAdd_length]
-    rw [ha.2 _ (List.getElem_mem _), hb.2 _ (List.getElem_mem _)]
-    omega
 
 /-- every state an accumulator can be in is well-formed -/
 theorem C11_retrieval_topk_reachable_wf (cfg : Config) (s : State) (h : Reachable (α := α) cfg s) :
@@ -85,28 +44,6 @@ theorem C11_retrieval_eval_den {M : Type} (add : M → M → M) (zero : M)
     have := congrArg Prod.snd h
     exact Quotient.exact this
   exact (hp.map f).foldl_eq' (fun x _ y _ z => hcomm x y z) zero
-
-theorem zipWith_replicate_left {β : Type} (f : β → β → β) (e : β) (s : List β) (n : Nat)
-    (hn : s.length = n) (h : ∀ c ∈ s, f e c = c) : List.zipWith f (List.replicate n e) s = s := by
-  induction s generalizing n with
-  | nil => simp
-  | cons x xs ih =>
-    cases n with
-    | zero => simp at hn
-    | succ n =>
-      simp only [List.replicate_succ, List.zipWith_cons_cons]
-      rw [h x (by simp), ih n (by simpa using hn) (fun c hc => h c (by simp [hc]))]
-
-theorem zipWith_replicate_right {β : Type} (f : β → β → β) (e : β) (s : List β) (n : Nat)
-    (hn : s.length = n) (h : ∀ c ∈ s, f c e = c) : List.zipWith f s (List.replicate n e) = s := by
-  induction s generalizing n with
-  | nil => simp
-  | cons x xs ih =>
-    cases n with
-    | zero => simp at hn
-    | succ n =>
-      simp only [List.replicate_succ, List.zipWith_cons_cons]
-      rw [h x (by simp), ih n (by simpa using hn) (fun c hc => h c (by simp [hc]))]
 
 /-- **unit**: a freshly created accumulator is neutral on either side (exactly) -/
 theorem C11_retrieval_topk_unit (cfg : Config) (s : State) (h : WF cfg s) :
@@ -150,6 +87,61 @@ theorem C11_retrieval_topk_merge_states_perm (s : State) (l₁ l₂ : List State
     | cons x xs ih => intro s; simp [ih, den_merge]
   rw [e, e]
   exact (h.map den).foldl_eq' (fun x _ y _ z => by rw [stAdd_assoc, stAdd_comm x y, ← stAdd_assoc]) _
+
+
+/-! ### never damages its operand; no leak; results repeatable (object-level model)
+
+`Model/Agg/RetrievalHeap.lean`: `MeanState` objects whose `total` is a Python number or a
+reference to an ndarray cell; `+=` rebinds (allocating) or writes in place exactly as Python /
+numpy do.  `TopKRetrieval.add` / `.merge` are sequences of the object-level steps `Op.add` /
+`Op.merge` on the receiver's own `MeanState`s (one per metric), so every statement below, being
+about *all* operation sequences, covers every interleaving of `add` / `merge` / `result` calls on
+any number of accumulators. -/
+
+open MlModel.Agg.Retrieval.Heap
+
+/-- **separation invariant**, for every history from the empty world: array references are in
+bounds and no two `MeanState` objects ever share an ndarray -/
+theorem C11_retrieval_separation (ops : List Op) : Sep (World.empty.run ops) :=
+  run_sep World.empty ops empty_sep
+
+/-- **merge only modifies its receiver**: after `objs[i].merge(objs[j])` every other object — in
+particular the merged-in operand `j ≠ i` — has the value it had, and every array cell the receiver
+does not own has the contents it had -/
+theorem C11_retrieval_merge_frame (w : World) (nk i j : Nat) (h : Sep w) :
+    (∀ l, l < w.objs.length → l ≠ i → (w.step (.merge i j)).cell nk l = w.cell nk l) ∧
+    (∀ r, r < w.heap.length → ¬ w.owns i r → (w.step (.merge i j)).heap[r]? = w.heap[r]?) := by
+  constructor
+  · intro l hl hli
+    exact step_cell_frame w nk (.merge i j) h l hl (by simp [Op.target, Ne.symm hli])
+  · intro r hr hown
+    simp only [World.step]
+    cases w.objs[j]? with
+    | none => rfl
+    | some o => exact mergeInto_heap_frame w i _ _ r hr hown
+
+/-- **later updates do not leak**: over *any* later history, an object that is not the receiver
+of any operation keeps its value — even if it was merged into others, or others into which it was
+merged are updated -/
+theorem C11_retrieval_no_leak (w : World) (nk : Nat) (ops : List Op) (h : Sep w) (l : Nat)
+    (hl : l < w.objs.length) (ht : ∀ op ∈ ops, op.target ≠ some l) :
+    (w.run ops).cell nk l = w.cell nk l := run_cell_frame w nk ops h l hl ht
+
+/-- **reading a result is repeatable and disturbs nothing**: `result()` is a function of the
+current world (it returns no new world), and it is stable under every history that does not write
+to the object -/
+theorem C11_retrieval_result_pure (w : World) (nk : Nat) (ops : List Op) (h : Sep w) (l : Nat)
+    (hl : l < w.objs.length) (ht : ∀ op ∈ ops, op.target ≠ some l) :
+    (w.run ops).result nk l = w.result nk l := by
+  simp only [World.result, run_cell_frame w nk ops h l hl ht]
+
+/-- **the object-level code refines the value-level model**: for every history of well-typed
+operations (arrays are vectors over the same `nk` Ks) the value of every object is what the pure
+`MeanCell.merge` / `MeanCell.new` compute — so all value-level theorems (C01, C07, the laws above)
+hold of the mutable objects -/
+theorem C11_retrieval_heap_refines (nk : Nat) (ops : List Op) (hops : ∀ op ∈ ops, op.Typed nk) (l : Nat) :
+    (World.empty.run ops).cell nk l = (ops.foldl (pureStep nk) [])[l]? :=
+  (run_refines nk ops hops World.empty [] (empty_refines nk)).cell l
 
 /-! ### ThresholdedRetrieval, MeanState, TupleMeanState -/
 
@@ -218,5 +210,15 @@ example : WF exCfg exS := wf_ofBatch exCfg _
 /-- symbolic totals really are order-sensitive as lists: the two merges differ, their denotations agree -/
 example : mergeState exS exT ≠ mergeState exT exS := by decide +kernel
 example : den (mergeState exS exT) = den (mergeState exT exS) := C11_retrieval_topk_comm exS exT
+
+/-- object-level: a, b fresh; a.add(x); b.add(y); a.merge(b); a.add(z) — b still reports y -/
+def exOps : List Op :=
+  [.new, .new, .add 0 1 [[V.ofQ (some 1)]], .add 1 1 [[V.ofQ (some 5)]], .merge 0 1, .add 0 1 [[V.ofQ (some 2)]]]
+example : (World.empty.run exOps).cell 1 1 = some ⟨[V.ofQ (some 5)], 1⟩ := by decide +kernel
+example : (World.empty.run exOps).cell 1 0 = some ⟨[V.ofQ (some 8)], 3⟩ := by decide +kernel
+example : ∀ op ∈ exOps, op.Typed 1 := by
+  intro op hop
+  simp only [exOps, List.mem_cons, List.not_mem_nil, or_false] at hop
+  rcases hop with rfl | rfl | rfl | rfl | rfl | rfl <;> simp [Op.Typed]
 
 end MlModel.C11
